@@ -1,0 +1,16 @@
+//go:build verif
+
+package timed
+
+import "time"
+
+// VerifPollHook, if set, is called by Queue.Poll after it popped an element and created its timer, right before it
+// waits for the timer, the cancelation of the element or the shutdown. It receives the scheduled time of the
+// polled element. It exists only in builds with the tag "verif" and is used to replay schedules deterministically.
+var VerifPollHook func(scheduledTime time.Time)
+
+func verifPollHook(scheduledTime time.Time) {
+	if hook := VerifPollHook; hook != nil {
+		hook(scheduledTime)
+	}
+}
